@@ -97,6 +97,24 @@ func pathParts(v ssa.Value) []ssa.Value {
 					return
 				}
 			}
+			// a path built by a small function of the analysed program (dr.uploadPath()): what its returns are built from
+			if h := x.Call.StaticCallee(); h != nil && len(h.Blocks) > 0 && h.Pkg != nil && h.Signature.Results().Len() == 1 && d < 6 {
+				if bt, isB := h.Signature.Results().At(0).Type().Underlying().(*types.Basic); isB && bt.Kind() == types.String && !isStdlib(h.Pkg.Pkg.Path()) {
+					n := 0
+					for _, b := range h.Blocks {
+						if len(b.Instrs) == 0 {
+							continue
+						}
+						if ret, ok := b.Instrs[len(b.Instrs)-1].(*ssa.Return); ok && len(ret.Results) == 1 {
+							walk(ret.Results[0], d+1)
+							n++
+						}
+					}
+					if n > 0 {
+						return
+					}
+				}
+			}
 		case *ssa.BinOp:
 			if x.Op == token.ADD {
 				walk(x.X, d+1)
@@ -128,6 +146,15 @@ func pathParts(v ssa.Value) []ssa.Value {
 	}
 	walk(v, 0)
 	return out
+}
+
+// isStdlib: an import path without a dot in its first element.
+func isStdlib(path string) bool {
+	first := path
+	if i := strings.Index(path, "/"); i >= 0 {
+		first = path[:i]
+	}
+	return !strings.Contains(first, ".")
 }
 
 func partConsts(v ssa.Value) []string {
@@ -345,23 +372,9 @@ func runFSRO(c *core.Ctx) {
 		return
 	}
 	memo := map[*ssa.Function]int{}
-	// allocation sites of the upload types are guarded
+	// allocation sites of the upload types are guarded (decided below, once the caller-chain walk is defined: in their own
+	// function, or — for a constructor step — at every call of it)
 	uploadGuarded := map[*types.Named]bool{}
-	for _, fam := range r.Families {
-		ok, n := true, 0
-		for _, fn := range c.P.Funcs("internal/store") {
-			an.Instrs(fn, func(in ssa.Instruction) {
-				if al, isAl := in.(*ssa.Alloc); isAl && types.Identical(an.Deref(al.Type()), fam.Upload) {
-					n++
-					if !roGuarded(al.Block()) {
-						ok = false
-						c.Note("FS-RO: allocation of %s in %s (block %d) is not behind a read-only guard", fam.Upload.Obj().Name(), c.P.FuncName(fn), al.Block().Index)
-					}
-				}
-			})
-		}
-		uploadGuarded[fam.Upload] = ok && n > 0
-	}
 	var guardedFn func(fn *ssa.Function, depth int) (bool, string)
 	guardedSite := func(site ssa.Instruction, depth int) (bool, string) {
 		if roGuarded(site.Block()) {
@@ -405,6 +418,29 @@ func runFSRO(c *core.Ctx) {
 			}
 		}
 		return true, ""
+	}
+	for _, fam := range r.Families {
+		ok, n := true, 0
+		for _, fn := range c.P.Funcs("internal/store") {
+			an.Instrs(fn, func(in ssa.Instruction) {
+				if al, isAl := in.(*ssa.Alloc); isAl && types.Identical(an.Deref(al.Type()), fam.Upload) {
+					n++
+					if roGuarded(al.Block()) {
+						return
+					}
+					if g, _ := guardedFn(fn, 0); g {
+						return
+					}
+					ok = false
+					c.Note("FS-RO: allocation of %s in %s (block %d) is not behind a read-only guard", fam.Upload.Obj().Name(), c.P.FuncName(fn), al.Block().Index)
+				}
+			})
+		}
+		uploadGuarded[fam.Upload] = ok && n > 0
+	}
+	// the walk above ran without the ‘upload object cannot exist’ argument: forget what it concluded
+	for k := range memo {
+		delete(memo, k)
 	}
 	for _, s := range fsSinks(c) {
 		if !s.mutating || core.FuncPkgPath(s.fn) != r.StorePath {
@@ -715,7 +751,7 @@ func fieldAssignedFromTemp(c *core.Ctx, r *Roles, fam *Family, field string) boo
 				ok = false
 				return
 			}
-			if ct, i := an.CallOf(an.Origin(nc.Call.Args[0])); ct == nil || i != 0 || !an.IsFunc(ct, "os", "CreateTemp") {
+			if !isCreateTempFile(c, nc.Call.Args[0]) {
 				ok = false
 			}
 		})
@@ -898,44 +934,83 @@ func runFSInit(c *core.Ctx) {
 			}
 			fn := s.fn
 			key := "init-before-upload:" + kn(c.P.FuncName(fn))
-			bad := ""
-			var initCalls []*ssa.Call
-			an.Calls(fn, func(call ssa.CallInstruction) {
-				if cc, ok := call.(*ssa.Call); ok && cc.Call.StaticCallee() == initFn {
-					initCalls = append(initCalls, cc)
-				}
-			})
-			an.Paths(an.PathSpec[bool]{Fn: fn, Init: false,
-				Instr: func(st bool, in ssa.Instruction) []bool {
-					if cl, ok := in.(ssa.CallInstruction); ok && !st && bad == "" {
-						for _, t := range fsSinks(c) {
-							if t.call == cl && t.mutating {
-								bad = fmt.Sprintf("%s at %s is reachable on a path that passed neither the ‘layout exists’ edge nor the ok-edge of the layout initialiser: the repository would hold content without oci-layout / index.json", t.name, c.P.Pos(cl.Pos()))
+			// frameBad: in frame, some instruction isSink names is reachable on a path that passed neither the ‘layout exists’
+			// edge nor the ok-edge of the layout initialiser
+			frameBad := func(frame *ssa.Function, isSink func(ssa.CallInstruction) (string, bool)) string {
+				bad := ""
+				var initCalls []*ssa.Call
+				an.Calls(frame, func(call ssa.CallInstruction) {
+					if cc, ok := call.(*ssa.Call); ok && cc.Call.StaticCallee() == initFn {
+						initCalls = append(initCalls, cc)
+					}
+				})
+				an.Paths(an.PathSpec[bool]{Fn: frame, Init: false,
+					Instr: func(st bool, in ssa.Instruction) []bool {
+						if cl, ok := in.(ssa.CallInstruction); ok && !st && bad == "" {
+							if what, is := isSink(cl); is {
+								bad = fmt.Sprintf("%s at %s is reachable on a path that passed neither the ‘layout exists’ edge nor the ok-edge of the layout initialiser: the repository would hold content without oci-layout / index.json", what, c.P.Pos(cl.Pos()))
 							}
 						}
-					}
-					return []bool{st}
-				},
-				Edge: func(st bool, from *ssa.BasicBlock, succ int) (bool, bool) {
-					ifi := an.BlockIf(from)
-					if ifi == nil {
-						return st, true
-					}
-					base, neg := an.CondBase(ifi.Cond)
-					if isExists(base) {
-						if (succ == 0) != neg {
-							return true, true
+						return []bool{st}
+					},
+					Edge: func(st bool, from *ssa.BasicBlock, succ int) (bool, bool) {
+						ifi := an.BlockIf(from)
+						if ifi == nil {
+							return st, true
 						}
-					}
-					if x, nilSucc, ok := an.NilTest(ifi); ok && succ == nilSucc {
-						for _, ic := range initCalls {
-							if x == ssa.Value(ic) {
+						base, neg := an.CondBase(ifi.Cond)
+						if isExists(base) {
+							if (succ == 0) != neg {
 								return true, true
 							}
 						}
+						if x, nilSucc, ok := an.NilTest(ifi); ok && succ == nilSucc {
+							for _, ic := range initCalls {
+								if x == ssa.Value(ic) {
+									return true, true
+								}
+							}
+						}
+						return st, true
+					}})
+				return bad
+			}
+			bad := frameBad(fn, func(cl ssa.CallInstruction) (string, bool) {
+				for _, t := range fsSinks(c) {
+					if t.call == cl && t.mutating {
+						return t.name, true
 					}
-					return st, true
-				}})
+				}
+				return "", false
+			})
+			// the creation may be a step of its own (the directory / temp file part of the create operation): the check is
+			// then made by the operation that calls it — every call of the step, in the functions of the family, is judged as
+			// the write itself (two levels)
+			var viaCallers func(step *ssa.Function, depth int) bool
+			viaCallers = func(step *ssa.Function, depth int) bool {
+				if obj, _ := step.Object().(*types.Func); obj == nil || obj.Exported() || depth > 2 {
+					return false
+				}
+				sites := c.P.Callers(step)
+				if len(sites) == 0 {
+					return false
+				}
+				for _, site := range sites {
+					caller := site.Parent()
+					if caller == nil || site.Common().StaticCallee() != step || r.FamilyOfFunc(caller) != fam {
+						return false
+					}
+					if b := frameBad(caller, func(cl ssa.CallInstruction) (string, bool) {
+						return c.P.FuncName(step), cl == site
+					}); b != "" && !viaCallers(caller, depth+1) {
+						return false
+					}
+				}
+				return true
+			}
+			if bad != "" && viaCallers(fn, 0) {
+				bad = ""
+			}
 			c.Check(bad == "", key, s.call.Pos(), "%s", map[bool]string{true: "layout initialised (or known to exist) before the first write on every path", false: bad}[bad == ""])
 		}
 	}
